@@ -28,7 +28,8 @@ EXTENDS Naturals, Sequences, FiniteSets
 
 CONSTANTS MaxTp,      \* transports that may be created in a behaviour
           Silent,     \* subset of 1..MaxTp: ports that never announce a connection
-          FixActive, FixShield
+          FixActive, FixShield,
+          Overlap     \* TRUE: the application may call stop() while its start() is still running
 
 Tps == 1..MaxTp
 
@@ -43,11 +44,11 @@ G0 == [ tp     |-> 0,          \* Engine._transport: 0 = None, else the k-th tra
         ctx    |-> "Inactive", \* the QoS context: Inactive | Idle
         st     |-> "none",     \* start(): none | wait (for connection_made, inside the factory) | wait2 (Engine.start's own wait)
         stTp   |-> 0,          \*   the transport that start() is waiting for
-        sp     |-> "none",     \* stop(): none | wait (for connection_lost)
+        sp     |-> "none",     \* stop(): none | cancel (cancelling / gathering the tracked tasks) | wait (for connection_lost)
         q      |-> <<>>,       \* call_soon()ed protocol callbacks, FIFO: <<"made"|"lost", k, err>>
         ann    |-> {},         \* live transports that have not yet announced their connection
         trips  |-> {},         \* assertions of the library that tripped / exceptions of the wrong kind
-        rets   |-> <<>> ]      \* what start()/stop() returned, in order: <<op, outcome>>
+        rets   |-> <<>> ]      \* what the last start()/stop() to return returned: << <<op, outcome>> >> (history-free)
 
 \* ---- the protocol's callbacks -------------------------------------------------------------------
 \* PortProtocol.connection_made(transport k, ramses=True)
@@ -79,39 +80,48 @@ Close(g, k, err) ==
 
 \* ---- Engine.start() ---------------------------------------------------------------------------------
 \* up to the first await inside transport_factory: a new transport exists, the factory waits for its announcement
-StartCall(g) ==
+StartCallS(g, silent) ==
   LET k == g.ntp + 1 IN
-  [g EXCEPT !.ntp = k, !.st = "wait", !.stTp = k, !.ann = IF k \in Silent THEN @ ELSE @ \cup {k}]
+  [g EXCEPT !.ntp = k, !.st = "wait", !.stTp = k, !.ann = IF silent THEN @ ELSE @ \cup {k}]
+StartCall(g) == StartCallS(g, (g.ntp + 1) \in Silent)
 
 \* the transport has identified its gateway: call_soon(protocol.connection_made)
 Announce(g, k) == [g EXCEPT !.ann = @ \ {k}, !.q = Append(@, <<"made", k, FALSE>>)]
 
 \* wait_for_connection_made() is satisfied: the factory returns the transport; Engine.start() keeps it and waits once more
 FactoryOk(g) == [g EXCEPT !.st = "wait2", !.tp = g.stTp]
-StartOk(g)   == [g EXCEPT !.st = "none", !.rets = Append(@, <<"start", "ok">>)]
+StartOk(g)   == [g EXCEPT !.st = "none", !.rets = <<<<"start", "ok">>>>]
 
 \* ... or the time-out of either wait fires first: TransportError (the engine keeps whatever transport it has by then)
 StartTimeout(g) ==
   [g EXCEPT !.st = "none", !.made = IF FixShield THEN @ ELSE "cancelled",
-            !.rets = Append(@, <<"start", "TransportError">>)]
+            !.rets = <<<<"start", "TransportError">>>>]
 
 \* ... or the future it awaits had been cancelled by an earlier time-out: CancelledError at once
 StartCancelled(g) ==
-  [g EXCEPT !.st = "none", !.trips = @ \cup {"start:CancelledError"}, !.rets = Append(@, <<"start", "CancelledError">>)]
+  [g EXCEPT !.st = "none", !.trips = @ \cup {"start:CancelledError"}, !.rets = <<<<"start", "CancelledError">>>>]
 
 \* ---- Engine.stop() -----------------------------------------------------------------------------------
-\* cancel the tracked tasks (not modelled), close the transport if there is one, wait for connection_lost
-StopCall(g) ==
+\* cancel the tracked tasks and gather them (this may take loop iterations) ...
+StopCall(g) == [g EXCEPT !.sp = "cancel"]
+
+\* ... then close the transport the engine holds by now, if any, and wait for connection_lost
+\* (wait_for_connection_lost() picks the future up when it is called; one that is already resolved is answered at once)
+StopClose(g) ==
   LET c == IF g.tp # 0 THEN Close(g, g.tp, FALSE) ELSE g IN
-  IF g.tp = 0 \/ c.lost = "none" THEN [c EXCEPT !.rets = Append(@, <<"stop", "ok">>)]   \* nothing to wait for
+  IF g.tp = 0 \/ c.lost = "none" THEN [c EXCEPT !.sp = "none", !.rets = <<<<"stop", "ok">>>>]   \* nothing to wait for
+  ELSE IF c.lost = "done"
+  THEN [c EXCEPT !.sp = "none", !.rets = <<<<"stop", IF c.lostE THEN "TransportError" ELSE "ok">>>>]
+  ELSE IF c.lost = "cancelled"               \* awaiting a cancelled future
+  THEN [c EXCEPT !.sp = "none", !.trips = @ \cup {"stop:CancelledError"}, !.rets = <<<<"stop", "CancelledError">>>>]
   ELSE [c EXCEPT !.sp = "wait"]
 
 StopDone(g) ==
-  [g EXCEPT !.sp = "none", !.rets = Append(@, <<"stop", IF g.lostE THEN "TransportError" ELSE "ok">>)]
+  [g EXCEPT !.sp = "none", !.rets = <<<<"stop", IF g.lostE THEN "TransportError" ELSE "ok">>>>]
 
 \* wait_for_connection_lost() times out (1 s): asyncio.wait_for cancels the protocol's future - as the code is
 StopTimeout(g) ==
-  [g EXCEPT !.sp = "none", !.lost = "cancelled", !.rets = Append(@, <<"stop", "TransportError">>)]
+  [g EXCEPT !.sp = "none", !.lost = "cancelled", !.rets = <<<<"stop", "TransportError">>>>]
 
 \* =======================================================================================================
 VARIABLE g
@@ -123,7 +133,7 @@ Init == g = G0
 \* hands, and - if the port died - the protocol has been told (that is how the application learns of it)
 CanStart == /\ g.st = "none" /\ g.sp = "none" /\ g.ntp < MaxTp
             /\ (g.tp = 0 \/ (g.tp \in g.closed /\ ~(\E n \in 1..Len(g.q) : g.q[n][1] = "lost")))
-CanStop  == g.sp = "none"
+CanStop  == g.sp = "none" /\ (Overlap \/ g.st = "none")
 
 AStartCall == CanStart /\ g' = StartCall(g)
 AAnnounce  == \E k \in g.ann : g' = Announce(g, k)
@@ -142,17 +152,18 @@ AStartRet  == \/ /\ g.st = "wait"
                     \/ g.made = "cancelled" /\ g' = StartCancelled(g)
                     \/ g.made = "pend" /\ NoMadeComing /\ g' = StartTimeout(g)
 AStopCall  == CanStop /\ g' = StopCall(g)
+AStopClose == g.sp = "cancel" /\ g' = StopClose(g)
 AStopRet   == /\ g.sp = "wait"
-              /\ \/ g.lost \in {"done", "cancelled"} /\ g' = StopDone(g)
+              /\ \/ g.lost = "done" /\ g' = StopDone(g)
                  \/ g.lost = "pend" /\ NoLostComing /\ g' = StopTimeout(g)
 \* the port dies under the engine (serial_asyncio _abort, a failed publish): the transport closes itself, with a cause or not
 ADied      == \E k \in Tps : \E err \in BOOLEAN :
                  k <= g.ntp /\ k \notin g.closed /\ k \notin g.ann /\ g.ptp = k /\ g' = Close(g, k, err)
 
-Next == AStartCall \/ AAnnounce \/ ARunCb \/ AStartRet \/ AStopCall \/ AStopRet \/ ADied
+Next == AStartCall \/ AAnnounce \/ ARunCb \/ AStartRet \/ AStopCall \/ AStopClose \/ AStopRet \/ ADied
 
 Spec == Init /\ [][Next]_vars
-Fair == Spec /\ WF_vars(AAnnounce) /\ WF_vars(ARunCb) /\ WF_vars(AStartRet) /\ WF_vars(AStopRet)
+Fair == Spec /\ WF_vars(AAnnounce) /\ WF_vars(ARunCb) /\ WF_vars(AStartRet) /\ WF_vars(AStopClose) /\ WF_vars(AStopRet)
 
 \* ---- consequences ---------------------------------------------------------------------------------------
 Quiet == g.q = <<>> /\ g.st = "none" /\ g.sp = "none" /\ g.ann = {}
@@ -178,5 +189,5 @@ CtxTracksConnection == (g.q = <<>>) => ((g.ctx = "Idle") <=> (g.lost = "pend"))
 
 \* liveness: every start() and stop() returns
 StartReturns == (g.st = "wait") ~> (g.st = "none")
-StopReturns  == (g.sp = "wait") ~> (g.sp = "none")
+StopReturns  == (g.sp # "none") ~> (g.sp = "none")
 =============================================================================
